@@ -848,6 +848,15 @@ def corpus():
                      ['99999999999999999999999-'], ['0-99999999999999999999999']]
             for specs in heads:
                 cases.append(range_case(fe, 0, None, fname, specs))
+            # an explicit range and a suffix range that begin at the same byte (every end of the explicit one), in both orders, with a third spec
+            for N in sorted({1, 2, 3, 5, max(n - 1, 1), n}):
+                if N > n or n > 300:
+                    continue
+                a = n - N
+                for b_ in range(a, n):
+                    cases.append(range_case(fe, 0, None, fname, ['%d-%d' % (a, b_), '-%d' % N]))
+                    cases.append(range_case(fe, 0, None, fname, ['-%d' % N, '%d-%d' % (a, b_)]))
+                    cases.append(range_case(fe, 0, None, fname, ['0-0', '%d-%d' % (a, b_), '-%d' % N]))
             # optional whitespace around list elements (RFC 9110 5.6.1 / 14.1.2: "bytes= 0-999, 4500-5499, -1000"), next to open and suffix specs
             for sp in (', ', ' ,', ' , ', ',\t'):
                 cases.append(range_case(fe, 0, None, fname, ['0-1', '-2'], sep=sp))
@@ -931,6 +940,14 @@ def gen_range(rng):
         a = pos()
         return '%d-%d' % (a, min(a + rng.randint(0, 3), max(n - 1, a)))
     specs = [spec() for _ in range(rng.choice([1, 1, 1, 2, 2, 3, 4]))]
+    if n and rng.random() < 0.12:
+        # an explicit and a suffix range beginning at the same byte
+        N = rng.randint(1, min(n, 12))
+        a = n - N
+        pair = ['%d-%d' % (a, rng.randint(a, n - 1)), '-%d' % N]
+        rng.shuffle(pair)
+        k = rng.randint(0, len(specs))
+        specs[k:k] = pair
     prefix, sep = 'bytes=', ','
     r = rng.random()
     if r < 0.04:
